@@ -337,10 +337,11 @@ func (self *BinaryConv) doRecurse(ctx context.Context, s string, jp int, desc *t
 
 						if err == errNull {
 							// unwind written field tag
+							// NOTICE: a null field counts as not given, it is still owed
 							p.Buf = p.Buf[:ks]
+						} else {
+							bm.Set(ft.ID(), thrift.OptionalRequireness)
 						}
-
-						bm.Set(ft.ID(), thrift.OptionalRequireness)
 					}
 
 				OBJECT_NEXT:
